@@ -40,8 +40,8 @@ def gen_instr(rng, op, np, me, caps):
     if op == "start": return "start %d" % q
     if op in ("acq", "rel", "pre"): return "%s %d" % (op, rng.randint(1, caps["res"]))
     if op in ("pacq", "ppre", "prel"): return "%s %d" % (op, rng.randint(1, caps["pool"]))
-    if op == "bput": return "bput %d" % rng.randint(1, max(1, caps["buf"]) + 1)
-    if op == "bget": return "bget %d" % rng.randint(0, max(1, caps["buf"]) + 1)
+    if op == "bput": return "bput %d" % rng.randint(1, min(3, max(1, caps["buf"]) + 1))
+    if op == "bget": return "bget %d" % rng.randint(0, min(3, max(1, caps["buf"]) + 1))
     if op == "qput": return "qput %d" % rng.randint(1, 9)
     if op == "qget": return "qget"
     if op == "pqput": return "pqput %d %d" % (rng.randint(1, 9), rng.randint(0, 2))
@@ -85,7 +85,11 @@ def gen_program(rng, pid, profile):
     caps = dict(res=rng.randint(1, 2), pool=rng.randint(1, 3), buf=rng.choice([1, 2, 3]), oq=rng.choice([1, 2, -1]), pq=rng.choice([1, 2, -1]))
     ops = [o for o, w in pr["ops"].items() for _ in range(w)]
     pkind = rng.choice(["res", "res", "pool", "pool", "buf", "oq", "pq"])
-    lines = ["prog %d" % pid, "cap res=%d pool=%d buf=%d oq=%d pq=%d" % (caps["res"], caps["pool"], caps["buf"], caps["oq"], caps["pq"])]
+    bufunit = 0
+    if profile in ("buf", "contend", "mix") and rng.random() < 0.3:
+        bufunit = 62                     # amounts in units of 2^62: level + amount reaches 2^64
+        caps["buf"] = rng.choice([2, 3, 3, -1])
+    lines = ["prog %d" % pid, "cap res=%d pool=%d buf=%d oq=%d pq=%d bufunit=%d" % (caps["res"], caps["pool"], caps["buf"], caps["oq"], caps["pq"], bufunit)]
     for p in range(1, np + 1):
         n = rng.randint(2, 7)
         code = contend_script(rng, np, p, caps, pkind) if pr.get("contend") else [gen_instr(rng, rng.choice(ops), np, p, caps) for _ in range(n)]
@@ -103,8 +107,51 @@ def gen_program(rng, pid, profile):
     lines.append("end")
     return "\n".join(lines)
 
+def gen_order(rng, pid):
+    """waiters arriving at staggered times on one object, priorities changed while they wait"""
+    kind = rng.choice(["res", "res", "pool", "buf", "oq"])
+    np_ = rng.randint(4, 6)
+    lines = ["prog %d" % pid, "cap res=1 pool=1 buf=1 oq=1 pq=1 bufunit=0"]
+    hold_long = rng.randint(4, 6)
+    take, give = {"res": ("acq 1", "rel 1"), "pool": ("pacq 1", "prel 1"), "buf": ("bget 1", "nop"), "oq": ("qget", "nop")}[kind]
+    if kind in ("res", "pool"):
+        lines.append("proc 1 %d 1 : %s ; hold %d ; %s ; hold 1" % (rng.randint(0, 2), take, hold_long, give))
+    elif kind == "buf":
+        lines.append("proc 1 0 1 : hold %d ; bput 1 ; hold 1 ; bput 1 ; hold 1 ; bput 1 ; hold 1 ; bput 1 ; hold 1 ; bput 1" % hold_long)
+    else:
+        lines.append("proc 1 0 1 : hold %d ; qput 1 ; hold 1 ; qput 2 ; hold 1 ; qput 3 ; hold 1 ; qput 4 ; hold 1 ; qput 5" % hold_long)
+    for p in range(2, np_):
+        lines.append("proc %d %d 1 : hold %d ; %s ; hold 1 ; %s" % (p, rng.randint(0, 2), rng.randint(0, 3), take, give))
+    ch = []
+    for _ in range(rng.randint(1, 4)):
+        ch += ["hold %d" % rng.randint(0, 2), "prio %d %d" % (rng.randint(2, np_ - 1), rng.randint(0, 3))]
+    lines.append("proc %d 3 1 : %s" % (np_, " ; ".join(ch)))
+    lines.append("end")
+    return "\n".join(lines)
+
+def gen_longrec(rng, pid):
+    """a recorded history long enough to make the sample arrays grow (1024, 2048 samples)"""
+    o, body = rng.choice([(1, ["acq 1", "hold 1", "rel 1", "hold %d" % rng.randint(0, 2)]),
+                          (3, ["pacq 1", "hold 1", "prel 1", "hold 1"]),
+                          (4, ["bput 1", "hold 1", "bget 1", "hold %d" % rng.randint(0, 1)]),
+                          (8, ["pqput 1 0", "hold 1", "pqget", "hold 1"])])
+    n = rng.choice([515, 530, 1030])
+    return "\n".join(["prog %d" % (900000 + pid), "cap res=1 pool=2 buf=2 oq=1 pq=2 bufunit=0",
+                      "proc 1 0 1 : hold %d ; rec %d 1 ; rep %d 4 ; %s ; hold 1 ; rec %d 0" % (rng.randint(0, 2), o, n, " ; ".join(body), o),
+                      "end"])
+
 def main():
     seed, count, profile = int(sys.argv[1]), int(sys.argv[2]), sys.argv[3]
+    if profile == "order":
+        rng = random.Random(seed * 104729 + 5)
+        for i in range(count):
+            print(gen_order(rng, i + 1))
+        return
+    if profile == "longrec":
+        rng = random.Random(seed * 7919 + 17)
+        for i in range(count):
+            print(gen_longrec(rng, i + 1))
+        return
     rng = random.Random(seed * 1000003 + sum(map(ord, profile)))
     for i in range(count):
         print(gen_program(rng, i + 1, profile))
